@@ -287,3 +287,57 @@ Section MMONO.
       unfold GetNBest.ltb, zle_bool. apply negb_true_iff, Z.leb_gt. lia.
   Qed.
 End MMONO.
+
+(* ---------------------------------------------------------------- scale invariance (C11) *)
+From VL Require Import Proofs.Scale_proofs.
+
+Section MMSCALE.
+  Variable k : Z.
+  Hypothesis Hk : 0 < k.
+
+  Lemma score_pairs_scale s u : score_pairs s (scalez k u) = scalez k (score_pairs s u).
+  Proof.
+    destruct s; cbn [score_pairs].
+    - unfold scalez. rewrite !map_map. apply map_ext. intros [p m]. cbn [fst snd]. fold (scalez k u). rewrite (pget0_scale k u).
+      assert (E : (k * pget0 u (swap p) <? k * m) = (pget0 u (swap p) <? m)).
+      { destruct (pget0 u (swap p) <? m) eqn:E; [apply Z.ltb_lt in E; apply Z.ltb_lt; nia|apply Z.ltb_ge in E; apply Z.ltb_ge; nia]. }
+      rewrite E. destruct (pget0 u (swap p) <? m); f_equal; lia.
+    - unfold scalez. rewrite !map_map. apply map_ext. intros [p m]. cbn [fst snd]. fold (scalez k u). rewrite (pget0_scale k u). f_equal. lia.
+    - reflexivity.
+  Qed.
+
+  Definition scaled (d : list (C * Z)) : list (C * Z) := map (fun cm => (fst cm, k * snd cm)) d.
+
+  Lemma dget_scaled d c : dget (scaled d) c = option_map (Z.mul k) (dget d c).
+  Proof. unfold scaled. induction d as [|[c0 m] d IH]; simpl; [reflexivity|]. destruct (ceqb c c0); [reflexivity|exact IH]. Qed.
+
+  Lemma dset_scaled d c m : dset (scaled d) c (k * m) = scaled (dset d c m).
+  Proof. unfold scaled. induction d as [|[c0 m0] d IH]; simpl; [reflexivity|]. destruct (ceqb c c0); simpl; [reflexivity|]. rewrite IH. reflexivity. Qed.
+
+  Lemma mc_step_scaled d pn : mc_step (scaled d) (fst pn, k * snd pn) = scaled (mc_step d pn).
+  Proof.
+    unfold mc_step. cbn [fst snd]. rewrite dget_scaled. destruct (dget d (snd (fst pn))) as [old|]; simpl.
+    - rewrite <- dset_scaled. f_equal. rewrite Z.mul_max_distr_nonneg_l by lia. reflexivity.
+    - apply dset_scaled.
+  Qed.
+
+  Lemma mc_of_scale l : mc_of (scalez k l) = scaled (mc_of l).
+  Proof.
+    unfold mc_of. change (@nil (C * Z)) with (scaled []) at 1. generalize (@nil (C * Z)) as d.
+    induction l as [|pn l IH]; intros d; simpl; [reflexivity|].
+    change (fst pn, k * snd pn) with (fst pn, k * snd pn). rewrite mc_step_scaled. apply IH.
+  Qed.
+
+  Lemma zle_scale a b : zle_bool (k * a) (k * b) = zle_bool a b.
+  Proof. unfold zle_bool. destruct (a <=? b) eqn:E; [apply Z.leb_le in E; apply Z.leb_le; nia|apply Z.leb_gt in E; apply Z.leb_gt; nia]. Qed.
+
+  Theorem minimax_scale s v n : minimax s (scalez k v) n = minimax s v n.
+  Proof.
+    rewrite !minimax_unfold, (complete_scale k v), score_pairs_scale, mc_of_scale.
+    set (m := mc_of (score_pairs s (complete v))).
+    assert (E : map (fun cs0 : C * Z => (fst cs0, - snd cs0)) (scaled m)
+                = mapv (Z.mul k) (map (fun cs0 : C * Z => (fst cs0, - snd cs0)) m)).
+    { unfold scaled, mapv. rewrite !map_map. apply map_ext. intros [c x]. simpl. f_equal. lia. }
+    rewrite E. apply (get_n_best_map zle_bool zle_bool (Z.mul k)). intros a b. apply zle_scale.
+  Qed.
+End MMSCALE.
